@@ -12,6 +12,10 @@ def run(ctx):
                 "certificate chain {0.5,4,17,40} KB, key set {K1,K2K1,K1K4,K3K1}, AEAD suite, X25519MLKEM768 key share; "
                 "distinct = distinct configuration tuple")
     ctx.assumptions = ["only Go's TLS stack is available as client and backend", "net.Pipe + seeded chunker as transport"]
+    # the names the Conn reports are the inner hello's for EVERY inner layout (incl. inner hellos without SNI / ALPN, which Go's
+    # client does not produce): the accepted cases of EchHello.tla
+    import echcommon
+    echcommon.run_family(ctx, ["MCEchHello_c03.cfg"], sample=200 if ctx.quick else None, what="C01 names of the inner hello")
     ctx.mc("MCEchE2E", "MCEchE2E.cfg", timeout=600)
     base = ctx.emit("MCEchE2E", "MCEchE2E.cfg", timeout=600, workers=1, name="scen")
     n = 90 if ctx.quick else 3000
